@@ -41,7 +41,8 @@ def map64SpaceIndex (l : VMLayout) (a : Nat) : Option Nat :=
 inductive Lookup | desc (d : Nat) | oob
 deriving DecidableEq, Repr
 
-/-- `Map64::get_descriptor_for_address(addr)` over a descriptor map `dm` (`MAX_SPACES` entries). -/
+/-- `Map64::get_descriptor_for_address(addr)` over a descriptor map `dm` (`MAX_SPACES` entries) as it
+was on the pinned tree (kept as the record of defect F8: unchecked index). -/
 def map64Descriptor (l : VMLayout) (dm : List Nat) (a : Nat) : Lookup :=
   match map64SpaceIndex l a with
   | none => .desc 0
@@ -50,7 +51,8 @@ def map64Descriptor (l : VMLayout) (dm : List Nat) (a : Nat) : Lookup :=
     | some d => .desc d
     | none => .oob           -- `self.inner().descriptor_map[index]`
 
-/-- The repaired lookup (recommended patch): bounds-checked like `Map32`
+/-- The lookup as repaired by the `fix:` commit (what the code does now; the driver runs this one):
+bounds-checked like `Map32`
 (`descriptor_map.get(index).copied().unwrap_or(UNINITIALIZED)`). -/
 def map64DescriptorFixed (l : VMLayout) (dm : List Nat) (a : Nat) : Nat :=
   match map64SpaceIndex l a with
